@@ -20,7 +20,16 @@ RULE = ("P-code from opv.gen_pcode.Gen over a drawn tag set / UOD command set, t
         "(upper, lower, swapcase, title, capitalize, one or two single-letter case flips - same letters, so similar or "
         "dissimilar to the defined name depending on how many letters change case)}, conditions truncated (no value / no operator / no argument / no colon), "
         "used tags or commands removed from the sets, indentation perturbed, garbage and unicode lines inserted; tag set "
-        "and command set may be empty. distinct = (kinds of owed errors with their name class, shape hash of the text); "
+        "and command set may be empty. A quarter of the cases come from the wide-length stratum: flat/one-level texts whose "
+        "unknown and known instruction, tag, macro, block and mark names have lengths 1..120 (letters only, sentences of "
+        "words, sentences with punctuation, words with non-ASCII characters, one letter repeated; e.g. a comment whose '#' "
+        "was forgotten so that the whole raw line is the instruction name; also edit-distance-1 near misses of the given "
+        "names), against tag sets and command sets of the classes {empty, a single 1-character name, 1..3-character names "
+        "only, 45..120-character names only, typical, typical plus very long names, 2..30 names of mixed lengths, 120..300 "
+        "names}; outside the typical classes the published command set may lack the structural names too. The wide names "
+        "are also one wrong-name class of the corruption layer. Every wide case and a tenth of the others is run through "
+        "lsp_analysis.lint as well. distinct = (kinds of owed errors with their name class [wide: and the length of "
+        "the name relative to the given names], shape hash of the text); "
         "non-trivial = at least one owed error of any class in the text")
 ASSUMPTIONS = [
     "openpectus.aggregator.deps (DI accessor of the running aggregator, unused by the functions under test) is replaced "
@@ -29,8 +38,13 @@ ASSUMPTIONS = [
     "build_tags(def)), document) -> ParserMethod.from_pcode, create_method_parser(method, uod_command_names=[]), "
     "SemanticCheckAnalyzer(tags, commands).analyze",
     "the structural instruction names (Watch, Alarm, Block, End block(s), Mark, Macro, Call macro, Batch, Simulate, "
-    "Simulate off, Notify) are always part of the command set (the engine always publishes them); every other name, "
-    "including Stop/Pause/Wait/Base..., may be missing from the set and is then an undefined command",
+    "Simulate off, Notify) are grammar keywords that are never owed an 'undefined command' error, whether the given "
+    "command set lists them (the engine always publishes them; all cases outside the wide-length stratum) or not; every "
+    "other name, including Stop/Pause/Wait/Base..., may be missing from the set and is then an undefined command",
+    "lsp_analysis.lint is invoked with a stand-in for fetch_uod_info (the aggregator lookup) that returns the case's "
+    "UodDefinition and with create_analysis_input's cache cleared; the document is an object with .source/.version; "
+    "lint is judged by: it returns, it holds no 'Parse error' diagnostic (the generic one that replaces all others when "
+    "the analysis raised), and an Error-severity diagnostic starts on every owed line",
     "'on that line' = an ERROR item whose node is the node of that line (or whose range starts on that line); any ERROR "
     "item satisfies the oracle (an indentation error on the same line counts)",
     "tag and command names are case sensitive (TagValueCollection.has / CommandCollection.has are dict-key lookups and "
@@ -45,7 +59,22 @@ REQUIRED = {"analyses": 1500, "owed_undefined_tag": 300, "owed_undefined_command
             "wrong_name_recase": 300, "recased_tag_names": 100, "recased_command_names": 300,
             "recased_condition_instruction_names": 50,
             "owed_undefined_tag_recased_dissimilar": 30, "owed_undefined_tag_recased_similar": 50,
-            "owed_undefined_command_recased_dissimilar": 100, "owed_undefined_command_recased_similar": 100}
+            "owed_undefined_command_recased_dissimilar": 100, "owed_undefined_command_recased_similar": 100,
+            # wide-length stratum: unknown names far longer / shorter than every name the analyzer was given
+            "wide_analyses": 800, "wide_unknown_names": 2500, "wide_near_miss_names": 300, "wrong_name_wide": 100,
+            "wide_no_command_given_at_all": 30,
+            **{f"wide_{what}_set_{c}": 60 for what in ("command", "tag") for c in
+               ("empty", "single_1_char_name", "short_names_only", "very_long_names_only", "typical",
+                "typical_plus_very_long", "mixed_lengths", "huge")},
+            "owed_undefined_command_much_longer_than_all_defined": 300,
+            "owed_undefined_command_much_shorter_than_all_defined": 80, "owed_undefined_command_no_defined_name": 100,
+            "owed_undefined_tag_much_longer_than_all_defined": 200, "owed_undefined_tag_much_shorter_than_all_defined": 50,
+            "owed_undefined_tag_no_defined_name": 250,
+            "owed_undefined_command_len_13_40": 400, "owed_undefined_command_len_41_120": 300,
+            "owed_undefined_tag_len_13_40": 300, "owed_undefined_tag_len_41_120": 250,
+            "owed_undefined_command_sentence_with_punctuation": 300, "owed_undefined_tag_sentence_with_punctuation": 250,
+            "owed_undefined_command_non_ascii": 100, "owed_undefined_tag_non_ascii": 80,
+            "lint_runs": 800, "lint_owed_checked": 3000}
 
 STRUCTURAL = ["Watch", "Alarm", "Block", "End block", "End blocks", "Mark", "Macro", "Call macro", "Batch", "Simulate",
               "Simulate off", "Notify"]
@@ -151,7 +180,9 @@ class Doc:
         self.source = source
 
 
-def build_input(tags, uod_cmds, engine_cmds):
+def build_definition(tags, uod_cmds, engine_cmds, sys_cmds=None):
+    """UodDefinition as the aggregator holds it. sys_cmds, when given, is the complete list of system command names
+    (wide-length stratum: the published set may be anything, also without the structural names)."""
     L, M, RNAP, rx, ArgSpec = lsp()
 
     def ser(regex):
@@ -164,8 +195,15 @@ def build_input(tags, uod_cmds, engine_cmds):
         sys_val[nm] = ser(ArgSpec.NoArgsInstance.regex)
     d = M.UodDefinition(
         commands=[M.CommandDefinition(name=n, validator=uod_val.get(n), docstring=None) for n in uod_cmds],
-        system_commands=[M.CommandDefinition(name=n, validator=sys_val.get(n), docstring="") for n in STRUCTURAL + engine_cmds],
+        system_commands=[M.CommandDefinition(name=n, validator=sys_val.get(n), docstring="")
+                         for n in (STRUCTURAL + engine_cmds if sys_cmds is None else sys_cmds)],
         tags=[M.TagDefinition(name=n, unit=u) for n, u in tags])
+    return d
+
+
+def build_input(tags, uod_cmds, engine_cmds, sys_cmds=None):
+    L = lsp()[0]
+    d = build_definition(tags, uod_cmds, engine_cmds, sys_cmds)
     return L.AnalysisInput(L.build_commands(d), L.build_tags(d), "opv")
 
 
@@ -174,14 +212,34 @@ def similar(name, names):
     return max([ratio(name, n) for n in names], default=0.0)
 
 
+def len_relation(nm, names):
+    """Length of an undefined name relative to the names the analyzer was given."""
+    if not names:
+        return "no_defined_name"
+    if len(nm) > 2 * max(len(n) for n in names):
+        return "much_longer_than_all_defined"
+    if len(nm) > 2 and 2 * len(nm) < min(len(n) for n in names):
+        return "much_shorter_than_all_defined"
+    return "of_comparable_length"
+
+
+def len_bucket(nm):
+    n = len(nm)
+    return "len_1_2" if n <= 2 else "len_3_12" if n <= 12 else "len_13_40" if n <= 40 else "len_41_120"
+
+
 def check_case(case, res: Result):
     L = lsp()[0]
     from openpectus.lang.exec.analyzer import AnalyzerItemType
     text = case["text"]
     tags = [tuple(t) for t in case["tags"]]
-    inp = build_input(tags, case["uod_cmds"], case["engine_cmds"])
+    sys_cmds = case.get("sys_cmds")
+    inp = build_input(tags, case["uod_cmds"], case["engine_cmds"], sys_cmds)
     tag_names = {t[0] for t in tags}
-    cmd_names = set(STRUCTURAL) | set(case["engine_cmds"]) | set(case["uod_cmds"])
+    given_cmds = set(STRUCTURAL + case["engine_cmds"] if sys_cmds is None else sys_cmds) | set(case["uod_cmds"])
+    # the structural instruction names are grammar keywords: never owed an 'undefined command' error, given or not
+    cmd_names = set(STRUCTURAL) | given_cmds
+    wide = bool(case.get("wide"))
     owed, amb = owed_errors(text, tag_names, cmd_names)
     res.count("analyses")
     res.count("ambiguous_lines_not_judged", amb)
@@ -189,16 +247,31 @@ def check_case(case, res: Result):
         res.count("empty_tag_set")
     if not case["uod_cmds"]:
         res.count("empty_uod_command_set")
+    if wide:
+        res.count("wide_analyses")
+        res.count("wide_command_set_" + case["cmd_set_class"])
+        res.count("wide_tag_set_" + case["tag_set_class"])
+        if not given_cmds:
+            res.count("wide_no_command_given_at_all")
     for _, kind, nm in owed:
         res.count("owed_" + kind)
         if kind != "incomplete_condition":
+            given = tag_names if kind == "undefined_tag" else given_cmds
             nc = name_class(nm, tag_names if kind == "undefined_tag" else cmd_names)
             if nc.startswith("recased"):
                 res.count(f"owed_{kind}_{nc}")
+            res.count(f"owed_{kind}_{len_relation(nm, given)}")
+            res.count(f"owed_{kind}_{len_bucket(nm)}")
+            if " " in nm and re.search(r"[^\w\s]", nm):
+                res.count(f"owed_{kind}_sentence_with_punctuation")
+            if not nm.isascii():
+                res.count(f"owed_{kind}_non_ascii")
     lines = text.splitlines()
     key = None
     if owed:
-        key = h([sorted({(kind, name_class(nm, tag_names if kind != "undefined_command" else cmd_names)) for _, kind, nm in owed}),
+        key = h([sorted({(kind, name_class(nm, tag_names if kind != "undefined_command" else cmd_names),
+                          len_relation(nm, tag_names if kind == "undefined_tag" else given_cmds) if wide else "")
+                         for _, kind, nm in owed}),
                  _shape(text)])
     try:
         result = L.analyze(inp, Doc(text))
@@ -224,8 +297,49 @@ def check_case(case, res: Result):
             res.violation(classify_missing(kind, nm, lines[k], tag_names, cmd_names),
                           f"line {k} {lines[k]!r}: {kind.replace('_', ' ')} {nm!r} but no ERROR item on that line "
                           f"(tags {sorted(tag_names)})"[:400], case)
+    if wide or case.get("lint"):
+        check_lint(case, owed, lines, tags, sys_cmds, tag_names, cmd_names, res)
     res.case(key, sample={"text": text, "tags": sorted(tag_names), "uod_cmds": case["uod_cmds"],
                           "owed": [(k, kind, nm) for k, kind, nm in owed][:8]})
+
+
+def check_lint(case, owed, lines, tags, sys_cmds, tag_names, cmd_names, res: Result):
+    """The editor path proper: lsp_analysis.lint(document, engine_id) with the UOD definition served by a stand-in for
+    the aggregator lookup. lint() turns an exception of the analysis into ONE 'Parse error' diagnostic that replaces
+    every other diagnostic - which is exactly what the statement forbids ('the editor keeps showing all other
+    diagnostics'). Judged: lint returns, no 'Parse error' diagnostic, an Error diagnostic starts on every owed line."""
+    L = lsp()[0]
+    import logging
+    from pylsp.lsp import DiagnosticSeverity
+    d = build_definition(tags, case["uod_cmds"], case["engine_cmds"], sys_cmds)
+    saved = L.fetch_uod_info
+    L.create_analysis_input.cache_clear()
+    L.fetch_uod_info = lambda engine_id: d
+    prev = logging.root.manager.disable
+    logging.disable(logging.CRITICAL)
+    res.count("lint_runs")
+    try:
+        diags = L.lint(Doc(case["text"]), "opv")
+    except Exception as ex:
+        tb = traceback.extract_tb(ex.__traceback__)
+        res.violation(None, f"lsp lint raised {type(ex).__name__}: {ex} (in {' > '.join(f.name for f in tb[-3:])})"[:400], case)
+        return
+    finally:
+        logging.disable(prev)
+        L.fetch_uod_info = saved
+        L.create_analysis_input.cache_clear()
+    parse_error = [x for x in diags if x["code"] == "Parse error" and str(x["message"]).startswith("Syntax error: ")]
+    if parse_error:
+        res.count("lint_degraded_to_parse_error")
+        res.violation(None, f"lsp lint degraded to the single generic diagnostic {parse_error[0]['message'][:200]!r}: every "
+                            f"other diagnostic of the method is lost ({len(owed)} owed errors)"[:400], case)
+        return
+    err_lines = {x["range"]["start"]["line"] for x in diags if x["severity"] == DiagnosticSeverity.Error}
+    for k, kind, nm in owed:
+        res.count("lint_owed_checked")
+        if k not in err_lines:
+            res.violation(classify_missing(kind, nm, lines[k], tag_names, cmd_names), f"lsp lint: line {k} {lines[k]!r}: {kind.replace('_', ' ')} {nm!r} but no Error diagnostic "
+                                f"starts on that line"[:400], case)
 
 
 def name_class(nm, names):
@@ -310,6 +424,8 @@ def wrong_name(rnd: random.Random, name: str, cls: str) -> str:
             rnd.choice(["", "", str(rnd.randint(0, 99))])
     if cls == "short":
         return rnd.choice(["q", "Zz", "j7", "k", "QQ", "a"])
+    if cls == "wide":
+        return wide_name(rnd)
     return ""
 
 
@@ -339,7 +455,7 @@ def recase(rnd: random.Random, name: str) -> str:
 
 def corrupt(rnd: random.Random, text: str, res: Result, allow_far: bool) -> str:
     out = []
-    classes = ["distance1", "short", "empty", "recase"] + (["far", "far"] if allow_far else [])
+    classes = ["distance1", "short", "empty", "recase"] + (["far", "far", "wide"] if allow_far else [])
     for ln in text.split("\n"):
         r = rnd.random()
         m = re.match(r"(\s*(?:\d+(?:\.\d+)?\s)?)([^:#]*)(:\s?)?(.*)$", ln, re.S)
@@ -422,12 +538,165 @@ def gen_case(rnd: random.Random, res: Result):
         tags.sort()
     if rnd.random() < 0.9:
         text = corrupt(rnd, text, res, allow_far)
-    return {"text": text, "tags": [list(t) for t in tags], "uod_cmds": uod, "engine_cmds": eng}
+    return {"text": text, "tags": [list(t) for t in tags], "uod_cmds": uod, "engine_cmds": eng, "lint": rnd.random() < 0.1}
+
+
+# ------------------------------------------------------------------------------------------------ wide-length stratum
+WIDE_WORDS = ["the", "pressure", "is", "too", "high", "check", "column", "before", "loading", "wait", "for", "operator",
+              "TODO", "remember", "to", "open", "valve", "V12", "and", "then", "start", "pump", "at", "50", "flow", "rate",
+              "of", "buffer", "A", "B", "x", "pH", "7.4", "until", "UV", "drops", "below", "baseline", "Note", "this", "step",
+              "was", "changed", "by", "QA", "on", "2024-01-05", "see", "SOP", "section", "3.2", "Equilibration", "I", "a"]
+WIDE_PUNCT = [",", ".", ";", " -", " (", ")", "/", "'", '"', " %", " &", "*", " +", "?", " [", "]", "{", "}", "$", "@", "~",
+              "^", "|", "\\", "`", "..."]
+WIDE_UNI = ["\u00e4", "\u00d6", "\u00e9", "\u00df", "\u00b5", "\u00b0", "\u03a9", "\u03bb", "\u6e29\u5ea6", "\u0416",
+            "\u00f1", "\u00f8", "\u2013", "\u2026", "\u20ac", "\U0001f600", "e\u0301", "\u00bd", "\u0130"]
+WIDE_LENGTHS = [(1, 1), (2, 2), (3, 3), (4, 6), (7, 12), (13, 22), (23, 40), (41, 80), (81, 120)]
+WIDE_STYLES = ["letters", "words", "words", "punct", "punct", "unicode", "repeat"]
+ASCII_LETTERS = LETTERS[:52]
+
+
+def wide_name(rnd: random.Random, lo: int = 1, hi: int = 120, style: str | None = None) -> str:
+    """A name / instruction text of a drawn length lo..hi: letters only, a sentence of words, a sentence with
+    punctuation, words with non-ASCII characters, one character repeated. Always starts with an ASCII letter (the judged
+    domain of the reference reading), never contains ':' '#' '<' '>' '=' '!' or a line break, no blank at either end."""
+    a, b = rnd.choice([r for r in WIDE_LENGTHS if r[1] >= lo and r[0] <= hi])
+    n = rnd.randint(max(a, lo), min(b, hi))
+    style = style or rnd.choice(WIDE_STYLES)
+    if style == "letters":
+        out = "".join(rnd.choice(LETTERS[:62] + "_") for _ in range(n))
+    elif style == "repeat":
+        out = rnd.choice(ASCII_LETTERS) * n
+    else:
+        out = rnd.choice(WIDE_WORDS).capitalize() if rnd.random() < 0.7 else rnd.choice(WIDE_WORDS)
+        while len(out) < n:
+            r = rnd.random()
+            if style == "punct" and r < 0.35:
+                out += rnd.choice(WIDE_PUNCT)
+            elif style == "unicode" and r < 0.35:
+                out += rnd.choice(WIDE_UNI)
+            out += " " + rnd.choice(WIDE_WORDS)
+        out = out[:n]
+    if not (out[0].isascii() and (out[0].isalpha() or out[0] == "_")):
+        out = rnd.choice(ASCII_LETTERS) + out[1:]
+    if out != out.strip():
+        out = out.strip() + rnd.choice(ASCII_LETTERS) * (len(out) - len(out.strip()))
+    return out
+
+
+WIDE_SET_CLASSES = ["empty", "single_1_char_name", "short_names_only", "very_long_names_only", "typical",
+                    "typical_plus_very_long", "mixed_lengths", "huge"]
+
+
+def wide_set(rnd: random.Random, cls: str, typical: list) -> list:
+    """Names of a tag or command set of the class (unique, order drawn)."""
+    if cls == "empty":
+        names = []
+    elif cls == "single_1_char_name":
+        names = [rnd.choice(ASCII_LETTERS)]
+    elif cls == "short_names_only":
+        names = [wide_name(rnd, 1, 3) for _ in range(rnd.randint(1, 5))]
+    elif cls == "very_long_names_only":
+        names = [wide_name(rnd, 45, 120) for _ in range(rnd.randint(1, 5))]
+    elif cls == "typical":
+        names = list(typical)
+    elif cls == "typical_plus_very_long":
+        names = list(typical) + [wide_name(rnd, 45, 120) for _ in range(rnd.randint(1, 3))]
+    elif cls == "mixed_lengths":
+        names = [wide_name(rnd) for _ in range(rnd.randint(2, 30))]
+    else:
+        names = list(typical) + [wide_name(rnd, 3, 60) for _ in range(rnd.randint(120, 300))]
+    names = list(dict.fromkeys(names))
+    rnd.shuffle(names)
+    return names
+
+
+def gen_wide_case(rnd: random.Random, res: Result):
+    """Unknown and known instruction / tag / macro / block names over the whole length range 1..120 (whole sentences
+    with blanks, punctuation and non-ASCII characters - e.g. a comment whose '#' was forgotten, so that the raw line is
+    the instruction name) against tag sets and command sets of very different sizes and name lengths."""
+    tcls = rnd.choice(WIDE_SET_CLASSES)
+    ccls = rnd.choice(WIDE_SET_CLASSES)
+    typical_tags = [t for t in TAG_POOL if rnd.random() < 0.8]
+    units = dict(TAG_POOL)
+    tag_names = wide_set(rnd, tcls, [t[0] for t in typical_tags])
+    tags = [[n, units.get(n) if n in units else rnd.choice([None, None, "L/h", "s", "%"])] for n in tag_names]
+    eng = [c for c in ENGINE_CMDS if rnd.random() < 0.8]
+    uod = [c for c in UOD_POOL if rnd.random() < 0.8]
+    if ccls.startswith("typical") or ccls == "huge":
+        sys_cmds = STRUCTURAL + eng
+        uod_cmds = [n for n in wide_set(rnd, ccls, uod) if n not in sys_cmds]
+    else:
+        # any published set at all: also one without the structural names
+        sys_cmds = list(STRUCTURAL) if rnd.random() < 0.4 else []
+        uod_cmds = [n for n in wide_set(rnd, ccls, []) if n not in sys_cmds]
+        eng = []
+    known_cmds = [c for c in sys_cmds + uod_cmds if c not in STRUCTURAL]
+
+    def unknown(known):
+        r = rnd.random()
+        if known and r < 0.15:
+            nm = wrong_name(rnd, rnd.choice(known), "distance1").strip()
+            if nm and nm[0].isascii() and nm[0].isalpha() and not re.search(r"[:#<>=!]", nm):
+                res.count("wide_near_miss_names")
+                return nm
+        res.count("wide_unknown_names")
+        return wide_name(rnd)
+
+    def value(tag):
+        u = dict(map(tuple, tags)).get(tag)
+        return str(rnd.randint(0, 99)) + (f" {u}" if u and rnd.random() < 0.8 else "")
+
+    def simple(ind):
+        r = rnd.random()
+        if r < 0.30:
+            ln = unknown(known_cmds) + rnd.choice(["", "", ": " + str(rnd.randint(0, 9)), ": " + wide_name(rnd, 1, 60)])
+        elif r < 0.45 and known_cmds:
+            c = rnd.choice(known_cmds)
+            ln = c + (": " + rnd.choice(UOD_ARGS[c]) if c in UOD_ARGS else rnd.choice(["", ": 3", ": " + wide_name(rnd, 1, 30)]))
+        elif r < 0.55:
+            ln = "Mark: " + wide_name(rnd)
+        elif r < 0.65:
+            ln = "Simulate off: " + (rnd.choice(tag_names) if tag_names and rnd.random() < 0.4 else unknown(tag_names))
+        elif r < 0.75:
+            t = rnd.choice(tag_names) if tag_names and rnd.random() < 0.4 else unknown(tag_names)
+            ln = f"Simulate: {t} = {value(t)}"
+        elif r < 0.82:
+            ln = "Call macro: " + (rnd.choice(macros) if macros and rnd.random() < 0.6 else wide_name(rnd))
+        elif r < 0.88:
+            ln = rnd.choice(["# " + wide_name(rnd), "", "    ", wide_name(rnd) + "  # " + wide_name(rnd, 1, 30)])
+        else:
+            ln = rnd.choice(["Stop", "Pause", "Wait: 1 s", "Base: s", "Info: " + wide_name(rnd, 1, 40), "Restart"])
+        if rnd.random() < 0.05 and ln.strip() and not ln.lstrip().startswith("#"):
+            ln = rnd.choice(["1 ", "2.5 ", "0.0 "]) + ln
+        return " " * ind + ln
+
+    macros = []
+    out = []
+    for _ in range(rnd.randint(2, 10)):
+        r = rnd.random()
+        if r < 0.30:
+            t = rnd.choice(tag_names) if tag_names and rnd.random() < 0.4 else unknown(tag_names)
+            how = rnd.random()
+            cond = (f"{t} {rnd.choice(sorted(WATCH_OPS))} {value(t)}" if how < 0.8 else
+                    rnd.choice([t, f"{t} {rnd.choice(sorted(WATCH_OPS))}", "", f"{rnd.choice(sorted(WATCH_OPS))} 3"]))
+            out.append(rnd.choice(["Watch", "Alarm"]) + (": " + cond if cond or rnd.random() < 0.5 else ""))
+            out += [simple(4) for _ in range(rnd.randint(1, 2))]
+        elif r < 0.38:
+            macros.append(wide_name(rnd))
+            out.append("Macro: " + macros[-1])
+            out += [simple(4) for _ in range(rnd.randint(1, 2))]
+        elif r < 0.46:
+            out.append("Block: " + wide_name(rnd))
+            out += [simple(4) for _ in range(rnd.randint(0, 2))] + ["    End block"]
+        else:
+            out.append(simple(0))
+    return {"text": "\n".join(out), "tags": tags, "uod_cmds": uod_cmds, "engine_cmds": eng, "sys_cmds": sys_cmds,
+            "wide": True, "cmd_set_class": ccls, "tag_set_class": tcls}
 
 
 def plan(tier, seed):
     if tier == "quick":
-        shards, n = 8, 6000
+        shards, n = 8, 8000
     else:
         shards, n = 32, 400000
     return [{"seed": seed * 1000003 + i, "n": n // shards} for i in range(shards)]
@@ -437,7 +706,7 @@ def run_shard(spec):
     res = Result()
     rnd = random.Random(spec["seed"])
     for _ in range(spec["n"]):
-        check_case(gen_case(rnd, res), res)
+        check_case(gen_wide_case(rnd, res) if rnd.random() < 0.25 else gen_case(rnd, res), res)
     return res
 
 
